@@ -44,6 +44,8 @@ Definition need (n R : N) : N := if n =? 0 then 1 else n + cdiv n R.
 (* lia must never see the two 64-bit literals (it stalls on them): reason through these facts *)
 Lemma isize_lt_usize : isize_max < usize_max.
 Proof. reflexivity. Qed.
+Lemma cautious_fits : 4096 <= usize_max.
+Proof. unfold N.le. vm_compute. discriminate. Qed.
 Lemma usize_max_big : 1024 < isize_max.
 Proof. reflexivity. Qed.
 
